@@ -93,6 +93,22 @@ WELL = {
                          {'dcls': 'scrartcl'}),
     'ltinput_missing': ('A \\LTinput{/nonexistent/q.tex} B', {}),
     'ltinput_file': ('A \\LTinput{/verif/vf/data/defs_with_text.tex} B \\fromfile{} C', {}),
+    'default_ws_end': ('\\newcommand{\\foo}[2][d  \n   d]{X#1Y#2}\nA \\foo{B}', {}),
+    'default_verb_end': ('\\newcommand{\\see}[1][file \\verb|appendix.tex|]{(see #1)}\nA \\see.', {}),
+    'body_verb_end': ('\\newcommand{\\code}{\\verb|some long code|}A \\code', {}),
+    'body_ws_end': ('\\newcommand{\\foo}[1]{X   \n   Y#1}\nA \\foo B', {}),
+    'body_special_end': ('\\newcommand{\\foo}{a---b``c\\,d~e\\%}A \\foo', {}),
+    'body_math_end': ('\\newcommand{\\foo}{$x+y$ and \\[ a = b. \\]}A \\foo', {}),
+    'body_item_end': ('\\newcommand{\\foo}{\\begin{itemize}\\item A\\end{itemize}}\\foo', {}),
+    'theorem_end': ('\\newtheorem{thm}{Theorem}\\begin{thm}', {}),
+    'proof_end': ('A\\begin{proof}', {'pack': 'amsthm'}),
+    'gls_end': ('\\gls@defglossaryentry{ab}{name={AB},text={some long text}}\\gls{ab}', {'pack': 'glossaries'}),
+    'cref_end': ('\\usepackage{cleveref}\\cref{q}', {'pack': 'cleveref'}),
+    'cite_end': ('\\cite{k}', {}),
+    'ref_end': ('\\ref{k}', {}),
+    'heading_end': ('\\section{A}', {}),
+    'item_end': ('\\begin{enumerate}\\item', {}),
+    'phrase_end': ('A \\zzfoo{B C} D', {}),
     'pure_action_lines': ('A\n\\label{q}\n\\index{q}\n\nB\n  \\zz\n\n\n\\zz\n\nC', {}),
     'removed_line_then_text': ('A\n\\newcommand{\\q}{}\nB \\q\n C', {}),
     'paragraph_tokens': ('A\n\n\n\\label{q}\n\n B', {}),
@@ -139,7 +155,8 @@ OPTION_SETS = [
     {'nosp': True, 'pack': '*', 'dcls': 'scrartcl'},
     {'extr': 'footnote,section', 'pack': '*'},
     {'defs': '\\newcommand{\\zzfoo}[1]{<#1>}\\usepackage{babel}', 'pack': ''},
-    {'repl': ['A B\tX Y Z', 'B & ', '# c', 'C\tQ'], 'pack': '*'},
+    {'repl': ['D & Long replacement text', 'B C & Q', '# c', 'A & Another longer one', 'F & '],
+     'pack': '*'},
     {'lang': 'xx', 'pack': '*,cleveref'},
     {'unkn': True, 'pack': '*'},
     {'defs': '\\newcommand{\\zzfoo}[1]{<#1>} Text \\footnote{Footnote text in defs} \\caption{Cap}'
